@@ -380,7 +380,7 @@ def o_term(rec, world, hist=None):
     if rec.aborted:
         return out
     deaths = sim.thread_deaths
-    if rec.op.get("cfg", {}).get("progress") == "bundled-sinkfail":
+    if rec.op.get("cfg", {}).get("progress") in ("bundled-sinkfail", "mixed-sinkfail"):
         # (the display's own thread ending with the sink's error has exited - that is all C07 asks of it)
         deaths = [d for d in deaths if "SinkError" not in d[2]]
     if deaths:
